@@ -12,7 +12,7 @@ branch (after the `fix:` commits for `Annotated[...]`, `type[Any]` and the bound
 * `typing.Union[...]` / `Optional[...]`, `A | B` and a tuple of types all end in `Union[tuple(normalised members)]`
   (member order kept, nothing flattened),
 * `type[X]` is kept verbatim (its argument is not normalised), except `type[Any]` = `type[object]`,
-* `Literal[v1..vn]` is `Equals[v1..vn]` bounded by the type of the values, or by the union of their types,
+* `Literal[v1..vn]` is `Equals[v1..vn]` bounded by the nearest common base class of the values' types,
 * `tuple[...]` is `ProductType[...]`; another parametrised generic goes to the handler registered for the most
   specific base of its origin (`Env.handler`, resolved by the real `TypeMap`; an input like the `issubclass`
   tables) and is bounded by its origin.
@@ -62,16 +62,21 @@ structure Env where
   valCls : Nat → Nat
   /-- which registered generic handler serves this origin class -/
   handler : Nat → Option Nat
+  /-- `issubclass` on classes (the same table as `Hier.sub`) -/
+  sub : Nat → Nat → Bool := fun _ _ => false
+  /-- `c.__mro__` of a class (from CPython), most specific first, ending in `object` -/
+  mro : Nat → List Nat := fun _ => []
 
-def dedup : List Nat → List Nat
-  | [] => []
-  | x :: xs => x :: (dedup xs).filter (· != x)
-
-/-- `Equals.default_bound` -/
+/-- `Equals.default_bound`: the nearest class (along the MRO of the first value's class) that all the values are
+    instances of -/
 def defaultBound (env : Env) (vals : List Nat) : NTy :=
-  match dedup (vals.map env.valCls) with
-  | [c] => .cls c
-  | cs => .union (cs.map .cls)
+  let cs := vals.map env.valCls
+  match cs with
+  | [] => .cls 0
+  | c0 :: _ =>
+    match (env.mro c0).find? (fun cand => cs.all (fun c => env.sub c cand)) with
+    | some b => .cls b
+    | none => .cls 0
 
 def mapE {α β ε : Type} (f : α → Except ε β) : List α → Except ε (List β)
   | [] => .ok []
@@ -143,16 +148,16 @@ def subtlerType (cT : Nat) : PyArg → Ty
 
 mutual
 /-- the argument of `type[...]` as a type of the order model: classes and parametrised generics -/
-def annTy : Ann → Option Ty
+def annTy (cT : Nat) : Ann → Option Ty
   | .cls c => some (.cls c)
   | .any => some (.cls 0)
-  | .gen o as => (annTyL as).map (.gen o)
-  | .typeOf a => (annTy a).map (fun t => .gen 7 [t])
+  | .gen o as => (annTyL cT as).map (.gen o)
+  | .typeOf a => (annTy cT a).map (fun t => .gen cT [t])
   | _ => none
-def annTyL : List Ann → Option (List Ty)
+def annTyL (cT : Nat) : List Ann → Option (List Ty)
   | [] => some []
   | a :: as =>
-    match annTy a, annTyL as with
+    match annTy cT a, annTyL cT as with
     | some t, some ts => some (t :: ts)
     | _, _ => none
 end
@@ -160,7 +165,7 @@ end
 mutual
 def NTy.toTy (cT cTuple : Nat) : NTy → Option Ty
   | .cls c => some (.cls c)
-  | .rawType a => (annTy a).map (fun t => .gen cT [t])
+  | .rawType a => (annTy cT a).map (fun t => .gen cT [t])
   | .union ms => (NTy.toTyL cT cTuple ms).map .union
   | .lit vals b => (NTy.toTy cT cTuple b).map (.lit vals)
   | .prod ms => (NTy.toTyL cT cTuple ms).map (fun ts => .prod ts (.cls cTuple))
@@ -172,5 +177,15 @@ def NTy.toTyL (cT cTuple : Nat) : List NTy → Option (List Ty)
     | some t, some ts => some (t :: ts)
     | _, _ => none
 end
+
+/-! ## which values a normalised annotation accepts (classes, unions, literals) -/
+
+/-- `isinstance(v, T)` for a value `v` (an equality class of values) of class `vcls` -/
+def NTy.accepts (H : Hier) (vcls v : Nat) : Nat → NTy → Bool
+  | 0, _ => false
+  | _ + 1, .cls c => H.sub vcls c
+  | f + 1, .union ms => ms.any (NTy.accepts H vcls v f)
+  | f + 1, .lit vals b => NTy.accepts H vcls v f b && vals.contains v
+  | _ + 1, _ => false
 
 end Ovld.Norm
